@@ -8,11 +8,13 @@ under the timing assumption that one iteration of runClock takes between `period
 of this file ("makeDeadline in atomic steps") drops that: in `RegexVerif.ClockConc`
 (Model/ClockConc.lean) only the critical sections and the single lock-free atomic reads are atomic,
 calls of any number of goroutines interleave step by step with each other, with the updater and with
-StopTimeoutClock, and the bounds on early timeouts are proved again for every interleaving.  The same
+StopTimeoutClock, and the bounds on early timeouts, the firing bound (measured from the time the
+deadline was made), exit and restart are proved again for every interleaving.  The same
 model executes the two earlier versions of makeDeadline, for which concrete interleavings yield a
 deadline that lies in the past (defects D37, D38).  The model is tied to the source by the regenerated
 facts `Generated.Clock` (constants and the statement skeleton of every function that is modelled) and
-to the running code by legs H and B.
+to the running code by legs H, B and I (I replays forced interleavings of the real code on
+`ClockConc.simulate`).
 -/
 import RegexVerif.Lemmas.Clock
 import RegexVerif.Lemmas.ClockConc
